@@ -305,6 +305,52 @@ def gen_pipeline(rng):
     return {"kind": "pipeline", "hex": b"".join(parts).hex()}
 
 
+def overlap_case(case):
+    """SCHEDULE: several runs are alive at the same time in one process (asynchronous runs on separate runner objects),
+    each forwarding its own input in its own encoding; the inputs are released one after the other, in a given order:
+    every command receives exactly its own text in its own encoding (start-of-stream marker included), then EOF"""
+    import threading
+    from fakerunner import Scripted
+
+    class UntilClosed(Scripted):
+        @property
+        def process_is_finished(self):
+            return self.stdin_closed > 0 or time.monotonic() > self._deadline
+
+    class Gated(io.StringIO):
+        def __init__(self, text):
+            super().__init__(text)
+            self.gate = threading.Event()
+
+        def read(self, n=-1):
+            self.gate.wait(6)
+            return super().read(n)
+
+    runs = []
+    for text, enc in case["runs"]:
+        r = UntilClosed(pty=False)
+        r._deadline = time.monotonic() + 8
+        st = Gated(text)
+        p = r.run("cmd", in_stream=st, hide=True, encoding=enc, echo_stdin=False, asynchronous=True)
+        runs.append((r, st, p, text, enc))
+    for i in case["order"]:
+        runs[i][1].gate.set()
+        time.sleep(0.05)
+    for i, (r, st, p, text, enc) in enumerate(runs):
+        p.join()
+        got = b"".join(r.stdin_writes)
+        try:
+            same = got.decode(enc) == text and (got == text.encode(enc) or not text)
+        except UnicodeDecodeError:
+            same = False
+        if not same:
+            return "run %d of %d overlapping runs (encoding %s): the command received %r, its input was %r" % (
+                i, len(runs), enc, got[:40], text.encode(enc)[:40])
+        if r.stdin_closed != 1:
+            return "run %d of %d overlapping runs: stdin closed %d times" % (i, len(runs), r.stdin_closed)
+    return None
+
+
 def async_case(case):
     """asynchronous run with an EXPLICIT input stream (which may be the sys.stdin object itself): the text must be
     forwarded and EOF delivered; without an explicit stream nothing is forwarded"""
@@ -369,6 +415,8 @@ def replay(case):
         why = guarded(async_case, case)
     elif k == "encode":
         why = guarded(encode_case, case)
+    elif k == "overlap":
+        why = guarded(overlap_case, case)
     elif k == "pipeline":
         why = guarded(pipeline_case, case)
     elif "sched" in case:
@@ -422,6 +470,14 @@ def run(ctx):
         extra.append({"kind": "reuse_stream", "runs": runs})
     for how in ("sys.stdin", "explicit"):
         extra.append({"kind": "async", "how": how, "text": "hello é\n"})
+    # runs whose lifetimes overlap (asynchronous), same and different encodings, inputs released in every order
+    for _ in range(ctx.n(10, 80)):
+        k = rng.choice([2, 2, 3])
+        oruns = [["".join(rng.choice("ab é\n") for _ in range(rng.randint(1, 5))), rng.choice(["utf-16", "utf-16", "utf-8-sig", "utf-8", "latin-1"])]
+                 for _ in range(k)]
+        order = list(range(k))
+        rng.shuffle(order)
+        extra.append({"kind": "overlap", "runs": oruns, "order": order})
     # the encoding step against the Encoder model (Model/Encode.lean): text cut into pieces, one encoder per run
     ecases = [gen_encode(rng) for _ in range(ctx.n(600, 6000))]
     emodel = common.LeanDriver("drv_runner").run([encode_line(c) for c in ecases]) if ctx.model_ok else [None] * len(ecases)
